@@ -84,6 +84,7 @@ def coversFixed (R S : Axis) : Bool :=
 
 /-- the footprint relation: the ground interval of `S` lies inside that of `R` -/
 def footprintInside (R S : Axis) : Prop := R.edge 0 ≤ S.edge 0 ∧ S.edge S.n ≤ R.edge R.n
+instance (R S : Axis) : Decidable (footprintInside R S) := by unfold footprintInside; exact inferInstance
 
 /-! ### resolve proc_crs -/
 
